@@ -8,7 +8,8 @@ Driver operations of C16: one aliasing scenario per request.
 
 `<init>` and the ops use the C08 syntax (`tf`, `sc`, `red`, `pj`, `rd pos|quat|se3`; anything else is refused).
 `<deriv>` = `copy` | `assoc <natlist>` | `merge <init A2>` | `split 0|1 <natlist bounds> <part>` |
-            `splitold 0|1 <natlist bounds> <part>` | `self`
+            `splitold 0|1 <natlist bounds> <part>` | `self` |
+            `other <init B> <k> <reads on A> <m> <ops on B>` (B.align_origin(A), B.align(A))
 "A changed" compares what A shows (matrices, positions, rotations, stamps as the lazy properties
 compute them) before the derivation and after the history on the derived object B.
 -/
@@ -51,6 +52,8 @@ inductive Deriv
   | assoc (ids : List Nat)
   | merge (s2 : St)
   | split (old cut : Bool) (bounds : List Nat) (part : Nat)
+  /-- `B.align_origin(A)` / `B.align(A)`: B is a second object, A is read, B runs its own methods -/
+  | other (s2 : St) (readsA opsB : List HOp)
 
 def derivP : Prs Deriv := do
   let t ← tok
@@ -59,6 +62,7 @@ def derivP : Prs Deriv := do
   | "self" => pure .self
   | "assoc" => do let l ← natListP; pure (.assoc l)
   | "merge" => do let (s2, _) ← initP; pure (.merge s2)
+  | "other" => do let (s2, _) ← initP; let rd ← hopsP; let ob ← hopsP; pure (.other s2 rd ob)
   | "split" => do let c ← natP; let b ← natListP; let k ← natP; pure (.split false (c == 1) b k)
   | "splitold" => do let c ← natP; let b ← natListP; let k ← natP; pure (.split true (c == 1) b k)
   | _ => failure
@@ -92,6 +96,10 @@ def scenario (sA : St) (pre : List HOp) (d : Deriv) (ops : List HOp) : String :=
         let bx := shown hx x
         let (h2, os, mg) := merge hx [a1, x]
         (h2, os.headD a1, some ((os.drop 1).headD x, bx), [mg], 0)
+    | .other s2 rd ob =>
+        let (hx, x) := alloc0 h1 s2
+        let (h2, x', a') := alignWith hx x a1 rd ob
+        (h2, a', none, [x'], 0)
     | .split old cut bounds part =>
         let (h2, p, parts) := if old then splitOld h1 a1 cut bounds else splitNew h1 a1 cut bounds
         (h2, p, none, parts, part)
